@@ -160,8 +160,16 @@ def reference_riemann(ctx, rng, idx):
         pb = (sr.Sod_subsonic if idx % 10 == 0 else sr.Sod_supersonic)(model)
         WL, WR = tuple(pb.bcL()), tuple(pb.bcR())
     else:
-        WL, WR = _riemann_data(rng, gam, strong=bool(rng.random() < 0.4))
-        pb = sr.riemann(model, list(WL), list(WR))
+        strong = bool(rng.random() < 0.4)
+        WL, WR = _riemann_data(rng, gam, strong=strong)
+        try:
+            pb = sr.riemann(model, list(WL), list(WR))
+        except RuntimeError as e:
+            # the packaged solver (aerokit's Newton iteration on p*) gives up loudly on some strong data: no solution to compare
+            if not (strong and "converge" in str(e)):
+                raise
+            ctx.info["packaged_riemann_solver_gave_up_loudly"] = ctx.info.get("packaged_riemann_solver_gave_up_loudly", 0) + 1
+            raise core.Skip("packaged riemann solver did not converge (loud)")
     # any mesh around the origin: uniform or not, any size and position of the initial discontinuity inside it
     n = int(rng.integers(20, 400))
     Lm = float(10 ** rng.uniform(-1, 1)); xo = -Lm * float(rng.uniform(0.1, 0.9))
